@@ -77,11 +77,15 @@ SyncApply(St, A, idk, hasCookie, req, KAttrs, Yld) ==
       owned2 == OwnedLive(St, A) \cup created
       cleanup == IF req.from = "refresh" THEN OwnedLive(St, A) \ ids ELSE {}
       left == owned2 \ cleanup
-      delc == {x \in req.retain.ids : (x \in DOMAIN St /\ ~Hidden(St[x])) \/ x \in created}
+      \* phase 4 looks at the state after the cleanup: what the cleanup recycled is skipped as already deleted
+      delc == {x \in req.retain.ids : ((x \in DOMAIN St /\ ~Hidden(St[x])) \/ x \in created) /\ x \notin cleanup}
+      \* referential integrity: a member reference must point at something live after the cleanup
+      refs == UNION {IF "member" \in DOMAIN req.entries[i].attrs THEN req.entries[i].attrs["member"] ELSE {} : i \in DOMAIN req.entries}
+      pref == \A v \in refs : (v \in created) \/ (v \in DOMAIN St /\ St[v].live = "live" /\ v \notin cleanup)
       p4 == req.retain.mode = "delete" => \A x \in delc : x \in left
       del4 == CASE req.retain.mode = "retain" -> left \ req.retain.ids
                 [] req.retain.mode = "delete" -> delc
                 [] OTHER -> {}
-      ok == p1 /\ p2 /\ p2b /\ p3a /\ p3b /\ p3c /\ p4
+      ok == p1 /\ p2 /\ p2b /\ p3a /\ p3b /\ p3c /\ pref /\ p4
   IN  [ok |-> ok, created |-> created, deleted |-> cleanup \cup del4]
 =============================================================================
